@@ -30,6 +30,70 @@ def c09_cfgs(seed, thorough):
     return cfgs
 
 
+def scripted_cfgs(seed, thorough):
+    """The control logic of the main loop driven by SCRIPTED labellings: the initial labelling and the output of every
+    relabelling step are dictated (the mixture initialisation and the labelling kernel are substituted from the harness,
+    everything else - repopulation gate, statistics, optimiser, convergence test, result assembly - is the real code).
+    The scripts are the histories the property quantifies over: equal labellings, labellings that describe the same
+    groups under other cluster ids, cycles, a labelling equal to the initial one, limits 1..6."""
+    rng = np.random.default_rng(seed + 991)
+    A = [0] * 6 + [1] * 6
+    B = [1] * 6 + [0] * 6            # the groups of A under swapped ids
+    C = [0] * 4 + [1] * 8
+    D = [0] * 8 + [1] * 4
+    E3 = [0] * 4 + [1] * 4 + [2] * 4
+    F3 = [2] * 4 + [0] * 4 + [1] * 4  # the groups of E3, ids rotated
+    G3 = [0] * 3 + [1] * 6 + [2] * 3
+    fixed = [
+        ("same groups, swapped ids, then agreement", 2, 6, A, [A, B, B]),
+        ("same groups, swapped ids until the limit", 2, 4, A, [A, B, A, B]),
+        ("cycle of two labellings", 2, 5, C, [A, C, A, C, A]),
+        ("agreement in round 1", 2, 4, C, [A, A]),
+        ("first output equals the initial labelling", 2, 3, A, [A, C, C]),
+        ("limit 1", 2, 1, A, [C]),
+        ("limit 2 without agreement", 2, 2, A, [C, D]),
+        ("three clusters, rotated ids", 3, 5, E3, [E3, F3, G3, G3]),
+        ("three clusters, rotated ids until the limit", 3, 3, G3, [E3, F3, E3]),
+        ("agreement only in the last permitted round", 2, 3, A, [C, D, D]),
+    ]
+    pool2 = [A, B, C, D]
+    pool3 = [E3, F3, G3]
+    for i in range(6 if not thorough else 30):
+        K = 2 + i % 2
+        pool = pool2 if K == 2 else pool3
+        limit = int(rng.integers(1, 7))
+        outs = [pool[int(rng.integers(0, len(pool)))] for _ in range(limit)]
+        fixed.append(("random script %d" % i, K, limit, pool[int(rng.integers(0, len(pool)))], outs))
+    cfgs = []
+    for j, (name, K, limit, init, outs) in enumerate(fixed):
+        cfgs.append({"N": 1, "W": 1, "K": K, "beta": 1.0, "lam": 0.11, "limit": limit, "m": 1, "biased": False, "eps": 0, "joint": False,
+                     "lengths": [len(init)], "data_seed": 4000 + j, "rng_seed": 4000 + j, "regimes": 2,
+                     "scripted": name, "script": {"init": init, "outs": outs, "dtype": ["uint16", "int64", "int"][j % 3]}})
+    return cfgs
+
+
+def scripted_patches(script):
+    def install():
+        from fast_ticc import cluster_label_assignment as cla
+        orig_init, orig_kernel = cla.build_initial_clusters, cla.assign_point_cluster_labels
+        calls = {"n": 0}
+        conv = {"uint16": np.uint16, "int64": np.int64, "int": int}[script["dtype"]]
+
+        def init(num_clusters, training_data):
+            return [np.int64(x) for x in script["init"]]
+
+        def kernel(label_assignment_cost, label_switching_cost):
+            k = min(calls["n"], len(script["outs"]) - 1)
+            calls["n"] += 1
+            out = script["outs"][k]
+            # like the real kernel: the first entry comes from argmin (int64), the rest from the path matrix
+            return ([np.int64(out[0])] + [conv(x) for x in out[1:]], float(k))
+        cla.build_initial_clusters = init
+        cla.assign_point_cluster_labels = kernel
+        return [lambda: setattr(cla, "build_initial_clusters", orig_init), lambda: setattr(cla, "assign_point_cluster_labels", orig_kernel)]
+    return install
+
+
 def unpadded_result_labels(run):
     res = run["result"]
     cfg = run["cfg"]
@@ -69,6 +133,25 @@ def run(ctx):
         # keep the anchored lines under the tracer even on cache hits (one converging run, one limit-1 run, one repopulating run)
         runs.append(e2e.traced_run({"N": 1, "W": 2, "K": 2, "beta": 3.0, "lengths": [40], "limit": 30, "m": 1, "data_seed": 2, "rng_seed": 2, "joint": False, "regimes": 2}))
         runs.append(e2e.traced_run({"N": 2, "W": 1, "K": 5, "beta": 30.0, "lengths": [60], "limit": 4, "m": 2, "data_seed": 4, "rng_seed": 4, "joint": False, "regimes": 2}))
+        # scripted histories (control logic under dictated labellings)
+        for cfg_s in scripted_cfgs(ctx.seed, ctx.thorough):
+            r_s = e2e.traced_run(cfg_s, extra_patches=scripted_patches(cfg_s["script"]))
+            runs.append(r_s)
+            ctx.count("scripted")
+            if r_s["error"] is not None:
+                ctx.violation("monitor", "scripted run '%s' raised %s" % (cfg_s["scripted"], r_s["error"][:200]), {"case": {"cfg": cfg_s}})
+            else:
+                want_rounds = None
+                outs_s = cfg_s["script"]["outs"]
+                for j in range(1, len(outs_s)):
+                    if outs_s[j] == outs_s[j - 1]:
+                        want_rounds = j + 1
+                        break
+                want_rounds = want_rounds or cfg_s["limit"]
+                got = len(looptrace.rounds_of(r_s)["rounds"])
+                if got != want_rounds:
+                    ctx.violation("monitor", "scripted history '%s' (limit %d): the loop ran %d rounds, the stopping rule gives %d"
+                                  % (cfg_s["scripted"], cfg_s["limit"], got, want_rounds), {"case": {"cfg": cfg_s}})
     accept_lits, replay_lits, vit_lits = [], [], []
     meta_a, meta_r, meta_v = [], [], []
     hist = {"rounds": {}, "early": 0, "limit_hit": 0, "repop_changed": 0, "errors": 0}
@@ -165,7 +248,7 @@ def run(ctx):
         sc = li[-1]["switching_cost"]
         T = tab.shape[0]
         betas = [float(sc["value"])] * T if sc["kind"] != "ndarray" else [float(x) for x in sc["value"]]
-        if T * K <= 1200 and np.all(np.isfinite(tab)):
+        if T * K <= 1200 and np.all(np.isfinite(tab)) and not cfg.get("scripted"):
             _, nopt = exact_dp(tab.tolist(), betas)
             vit_lits.append("(%s, %s, %s, %s, %s)" % (c_nat(K), c_list([c_list([c_float(x) for x in row]) for row in tab]),
                                                     c_list([c_float(b) for b in betas]), c_list(lo[-1]["labels"], c_nat), c_float(lo[-1]["cost"])))
